@@ -103,13 +103,15 @@ theorem readNested_ok {b : Bytes} {q n : Nat} {c : Cost} {xs : List Action} {c' 
   simp only [List.length_nil, Cost.mem] at this
   omega
 
-theorem readCRule_noPanic (S : RuleSites) (b : Bytes) (q : Nat) (c : Cost) :
-    (readCRule S b q c).noPanic := by
-  unfold readCRule
+theorem readCRuleG_noPanic (fixed : Bool) (S : RuleSites) (b : Bytes) (q : Nat) (c : Cost) :
+    (readCRuleG fixed S b q c).noPanic := by
+  unfold readCRuleG
   refine bind_noPanic (readSlice_noPanic _ _ _ _) (fun r1 _ => ?_)
   obtain ⟨back, q1, c1⟩ := r1
   dsimp only
   refine bind_noPanic (readU16_noPanic _ _ _) (fun igc _ => ?_)
+  split
+  · exact True.intro
   have hm : (igc + 65535) % 65536 < 65536 := by omega
   revert hm
   generalize (igc + 65535) % 65536 = n
@@ -126,17 +128,22 @@ theorem readCRule_noPanic (S : RuleSites) (b : Bytes) (q : Nat) (c : Cost) :
   refine bind_noPanic (readNested_noPanic _ _ _ _ hlt) (fun r4 _ => ?_)
   exact True.intro
 
+theorem readCRule_noPanic (S : RuleSites) (b : Bytes) (q : Nat) (c : Cost) :
+    (readCRule S b q c).noPanic := readCRuleG_noPanic true S b q c
+
 /-- a successfully read rule lies inside the data, and costs half its encoded length -/
-theorem readCRule_ok {S : RuleSites} {b : Bytes} {q : Nat} {c : Cost} {r : Rule} {c' : Cost}
-    (h : readCRule S b q c = .ok (r, c')) :
+theorem readCRuleG_ok {fixed : Bool} {S : RuleSites} {b : Bytes} {q : Nat} {c : Cost} {r : Rule} {c' : Cost}
+    (h : readCRuleG fixed S b q c = .ok (r, c')) :
     q + SfntV.Otl.Ctx.cruleLen r ≤ b.length ∧
       c'.steps = c.steps + 4 + r.back.length + r.input.length + r.look.length + r.actions.length ∧
       c'.alloc = c.alloc + 1 + r.back.length + r.input.length + r.look.length + r.actions.length := by
-  unfold readCRule at h
+  unfold readCRuleG at h
   obtain ⟨⟨back, q1, c1⟩, h1, h⟩ := bind_eq_ok h
   dsimp only at h
   obtain ⟨igc, higc, h⟩ := bind_eq_ok h
   obtain ⟨_, _, hq1⟩ := readU16_ok higc
+  split at h
+  · cases h
   have hm : (igc + 65535) % 65536 < 65536 := by omega
   revert hm h
   generalize (igc + 65535) % 65536 = n
@@ -158,5 +165,12 @@ theorem readCRule_ok {S : RuleSites} {b : Bytes} {q : Nat} {c : Cost} {r : Rule}
   simp only [Cost.tick] at e4
   simp only [SfntV.Otl.Ctx.cruleLen, Cost.mem]
   omega
+
+theorem readCRule_ok {S : RuleSites} {b : Bytes} {q : Nat} {c : Cost} {r : Rule} {c' : Cost}
+    (h : readCRule S b q c = .ok (r, c')) :
+    q + SfntV.Otl.Ctx.cruleLen r ≤ b.length ∧
+      c'.steps = c.steps + 4 + r.back.length + r.input.length + r.look.length + r.actions.length ∧
+      c'.alloc = c.alloc + 1 + r.back.length + r.input.length + r.look.length + r.actions.length :=
+  readCRuleG_ok h
 
 end SfntV.Total.ChainCtx
